@@ -53,6 +53,9 @@ type FuncContract struct {
 	Unroll    int
 	Options   map[string]bool
 	Lets      []*LetDef
+	Binds     map[string]string // name -> program point (value returned by the call there)
+	Dispatch  []string          // interface method contracts: concrete implementations tried first
+	Releases  []ast.Expr        // slices whose region is handed back (BufferPool.Put)
 }
 
 type LetDef struct {
@@ -290,6 +293,24 @@ func (db *ContractDB) loadFile(path string, extern bool) error {
 				}
 				cur.ModExprs = append(cur.ModExprs, x)
 			}
+		case word == "releases":
+			x, err := parseExprAt(rest, path, ln)
+			if err != nil {
+				return err
+			}
+			cur.Releases = append(cur.Releases, x)
+		case word == "dispatch":
+			cur.Dispatch = append(cur.Dispatch, strings.Fields(rest)...)
+		case word == "bind":
+			// bind name after call:callee#k
+			f := strings.Fields(rest)
+			if len(f) != 3 || f[1] != "after" {
+				return fmt.Errorf("%s:%d: bad bind", path, ln)
+			}
+			if cur.Binds == nil {
+				cur.Binds = map[string]string{}
+			}
+			cur.Binds[f[0]] = f[2]
 		case word == "let":
 			i := strings.Index(rest, ":=")
 			if i < 0 {
